@@ -5,9 +5,9 @@ import tools_seeded as T
 
 pid = sys.argv[1]
 allchecks = "all" in sys.argv[2:]
-rnd = 2 if "round2" in sys.argv[2:] else 1
-src = ("/tmp/seed-out2/%s" if rnd == 2 else "/tmp/seed-out/%s") % pid
-LETTER = {(1, ""): "a", (1, "2"): "b", (2, ""): "c", (2, "2"): "d"}
+rnd = 3 if "round3" in sys.argv[2:] else (2 if "round2" in sys.argv[2:] else 1)
+src = {1: "/tmp/seed-out/%s", 2: "/tmp/seed-out2/%s", 3: "/tmp/seed-out3/%s"}[rnd] % pid
+LETTER = {(1, ""): "a", (1, "2"): "b", (2, ""): "c", (2, "2"): "d", (3, ""): "e", (3, "2"): "f"}
 for suffix in ("", "2"):
     patch, demo, notes = "patch%s.diff" % suffix, "demo%s.py" % suffix, "notes%s.json" % suffix
     if not os.path.exists(os.path.join(src, patch)) or not os.path.exists(os.path.join(src, demo)):
